@@ -326,3 +326,133 @@ def subject_canonical(facts, rep=None):
     if rep is not None and ren: rep.assume('Subject members recognised by role, reported under their canonical names: ' + ', '.join(ren))
     _subj_cache.clear(); _subj_cache[key] = f2
     return f2
+
+
+# ---- every other class: fields by type (and, where two fields share a type, by use) ---------------------------------------------
+def _t(f): return (f['ctype'] or '').replace('const ', '').strip()
+def _is_bool(f): return _t(f) in ('bool', '_Bool', 'std::atomic<bool>', 'std::atomic_bool', 'volatile bool')
+def _is_num(f): return _is_int(_t(f)) or _t(f) in ('ssize_t', 'size_t', 'std::size_t', 'int64_t', 'std::int64_t', 'long long', 'std::atomic<long>', 'std::atomic<int>', 'unsigned int', 'tulz::SubscriptionId')
+def _is_str(f): return _t(f).startswith(('std::basic_string<', 'std::string'))
+def _ptr_to(name): return lambda f: _t(f).rstrip().endswith(('*', '&')) and name in _t(f) or (_t(f).startswith(('std::unique_ptr<', 'std::shared_ptr<')) and name in _t(f))
+
+
+SIMPLE = {
+    'tulz::ConcurrentSubjectRouter': [('m_router', lambda f: _t(f) == 'tulz::SubjectRouter'), ('m_resource', lambda f: _t(f) != 'tulz::SubjectRouter')],
+    'tulz::ConcurrentSubjectRouter::Subscription::ConcurrentInvoker': [('m_resource', lambda f: f.get('isref') or f.get('isptr') or _t(f).rstrip().endswith(('*', '&')))],
+    'tulz::File': [('m_file', lambda f: 'FILE' in _t(f)), ('m_mode', lambda f: _t(f).endswith('File::Mode'))],
+    'tulz::Observer': [('m_func', lambda f: _t(f).startswith('std::function<')), ('m_params', lambda f: _t(f).endswith('::Params'))],
+    'tulz::Observer::Params': [('mute', _is_bool)],
+    'tulz::Path': [('m_path', _is_str)],
+    'tulz::PooledRunnable': [('m_threadPool', _ptr_to('tulz::ThreadPool')), ('m_pooledThread', _ptr_to('tulz::PooledThread'))],
+    'tulz::PooledThread': [('m_lastActiveTime', _is_num)],
+    'tulz::RoutingLevelView': [('m_key', lambda f: 'RoutingKey' in _t(f)), ('m_level', _is_num)],
+    'tulz::RoutingKey': [('m_levels', lambda f: _t(f).startswith(('std::vector<', 'std::deque<', 'std::list<')))],
+    'tulz::RoutingKeyBuilder': [('m_key', lambda f: _t(f) == 'tulz::RoutingKey')],
+    'tulz::SubjectRouter': [('m_rootNode', lambda f: _t(f).endswith('SubjectRouter::Node'))],
+    'tulz::SubjectRouter::Node': [('m_name', _is_str), ('m_subject', lambda f: 'tulz::Subject<' in _t(f)), ('m_children', lambda f: _t(f).startswith(('std::map<', 'std::unordered_map<', 'std::multimap<')))],
+    'tulz::Subscription': [('m_id', _is_num), ('m_subject', lambda f: 'tulz::Subject<' in _t(f)), ('m_observer', lambda f: 'tulz::Observer<' in _t(f))],
+    'tulz::Thread': [('m_thread', lambda f: _t(f) in ('std::thread', 'std::jthread')), ('m_isFinished', _is_bool)],
+    'tulz::rwp::ReadLock': [('m_resource', lambda f: 'rwp::Resource' in _t(f))],
+    'tulz::rwp::WriteLock': [('m_resource', lambda f: 'rwp::Resource' in _t(f))],
+    'tulz::USubscription': [('m_invoker', lambda f: 'Invoker' in _t(f))],
+    'tulz::USubscription::DefaultInvoker': [('m_subscription', lambda f: 'tulz::Subscription<' in _t(f))],
+    'tulz::EternalObserver': [('m_isValid', _is_bool)],
+}
+
+
+def _assign(fields, spec):
+    """{actual: canonical} if every role is matched by exactly one field and every field by at most one role, else None"""
+    m = {}
+    for canon, pred in spec:
+        hit = [f for f in fields if pred(f)]
+        if len(hit) != 1 or hit[0]['name'] in m: return None
+        m[hit[0]['name']] = canon
+    return m
+
+
+def infer_all(facts):
+    """{generic class: {actual field: canonical field}} for the classes of SIMPLE plus ThreadPool, Observable, DirectoryVisitor;
+    a class is only listed if all its instantiations agree"""
+    out = {}
+    by_g = {}
+    for cn, c in facts.classes.items(): by_g.setdefault(strip_targs(cn), []).append((cn, c))
+    for g, spec in SIMPLE.items():
+        maps = [_assign(c['fields'], spec) for cn, c in by_g.get(g, []) if c['fields']]
+        if maps and all(m is not None and m == maps[0] for m in maps): out[g] = maps[0]
+    # Observable<T, Eq, SubjectType>: the held value has the first template argument's type
+    maps = []
+    for cn, c in by_g.get('tulz::Observable', []):
+        if len(c['fields']) != 3: maps.append(None); continue
+        subj = [f for f in c['fields'] if 'Subject<' in _t(f)]
+        inner = cn[cn.index('<') + 1:]
+        depth = 0; T = ''
+        for ch in inner:
+            if ch == '<': depth += 1
+            if ch == '>': depth -= 1
+            if (ch == ',' and depth == 0) or depth < 0: break
+            T += ch
+        val = [f for f in c['fields'] if f not in subj and _t(f) == T.strip().replace('const ', '')]
+        rest = [f for f in c['fields'] if f not in subj and f not in val]
+        maps.append({subj[0]['name']: 'm_subject', val[0]['name']: 'm_val', rest[0]['name']: 'm_eq'} if len(subj) == 1 and len(val) == 1 and len(rest) == 1 else None)
+    if maps and all(m is not None and m == maps[0] for m in maps): out['tulz::Observable'] = maps[0]
+    # DirectoryVisitor: the saved directory is the one that receives getWorkingDirectory()
+    for cn, c in by_g.get('tulz::DirectoryVisitor', []):
+        ps = [f for f in c['fields'] if _t(f) == 'tulz::Path']
+        if len(ps) != 2 or len(c['fields']) != 2: continue
+        saved = set()
+        for f in facts.fns:
+            if f.d.get('class') != cn: continue
+            for n in f.nodes():
+                if n.k == 'call' and n.ck == 'op' and n.op == '=' and n.ns('args') and n.ns('args')[0] is not None and n.ns('args')[0].k == 'member' and n.ns('args')[0].field \
+                        and any(x.k == 'call' and (x.calleeq or '').endswith('getWorkingDirectory') for a in n.ns('args')[1:] if a is not None for x in a.walk()):
+                    saved.add(n.ns('args')[0].name)
+                if f.d.get('dtor') and n.k == 'call' and (n.calleeq or '').endswith('setWorkingDirectory'):
+                    for x in n.walk():
+                        if x.k == 'member' and x.field and x.name in [p['name'] for p in ps]: saved.add(x.name)
+        if len(saved) == 1:
+            old = next(iter(saved)); other = [p['name'] for p in ps if p['name'] != old][0]
+            out['tulz::DirectoryVisitor'] = {old: 'm_oldDir', other: 'm_dir'}
+    # ThreadPool
+    for cn, c in by_g.get('tulz::ThreadPool', []):
+        fs = c['fields']
+        pool = [f for f in fs if _t(f).startswith(SEQ) and 'Thread' in _t(f) and 'Runnable' not in _t(f)]
+        queue = [f for f in fs if _t(f).startswith(SEQ) and 'Runnable' in _t(f)]
+        cv = [f for f in fs if _t(f) == 'std::condition_variable']
+        run = [f for f in fs if _is_bool(f)]
+        mx = [f for f in fs if _t(f) == 'std::mutex']
+        ints = [f for f in fs if _is_num(f)]
+        if not (len(pool) == len(queue) == len(cv) == len(run) == 1 and len(mx) == 2 and len(ints) == 2): continue
+        mt = _returned_field(facts, cn, 'getMaxThreadCount'); et = _returned_field(facts, cn, 'getExpiryTimeout')
+        if not mt or not et or mt == et or {mt, et} != {f['name'] for f in ints}: continue
+        qm = set()
+        for f in facts.fns:
+            if f.d.get('class') != cn or f.d.get('lambda'): continue
+            guards = [n for n in f.nodes() if n.k == 'construct' and (n.d.get('class') or '').startswith(('std::scoped_lock', 'std::lock_guard', 'std::unique_lock')) and n.ns('args') and n.ns('args')[0] is not None and n.ns('args')[0].k == 'member']
+            touches_q = any(n.k == 'member' and n.field and n.name == queue[0]['name'] for n in f.nodes())
+            touches_p = any(n.k == 'member' and n.field and n.name == pool[0]['name'] for n in f.nodes())
+            if len(guards) == 1 and touches_q and not touches_p: qm.add(guards[0].ns('args')[0].name)
+        if len(qm) != 1: continue
+        q_m = next(iter(qm)); p_m = [f['name'] for f in mx if f['name'] != q_m]
+        if len(p_m) != 1: continue
+        out['tulz::ThreadPool'] = {pool[0]['name']: 'm_pool', queue[0]['name']: 'm_queue', cv[0]['name']: 'm_condition', run[0]['name']: 'm_isRunning',
+                                  mt: 'm_maxThreadCount', et: 'm_expiryTimeout', q_m: 'm_queueMutex', p_m[0]: 'm_poolMutex'}
+    return out
+
+
+_all_cache = {}
+
+
+def canonical_all(facts, rep=None):
+    """the facts with every recognised member under its canonical name (containers and the classes above); identity if nothing differs"""
+    key = id(facts)
+    if key in _all_cache: return _all_cache[key]
+    maps = dict(infer_all(facts)); maps.update(infer_containers(facts))
+    ren = {g: {k: v for k, v in m.items() if k != v} for g, m in maps.items()}
+    ren = {g: m for g, m in ren.items() if m}
+    f2 = facts
+    if ren:
+        f2 = renamed_fields(facts, maps)
+        if rep is not None:
+            rep.assume('members recognised by role (type and use), reported under their canonical names: ' + '; '.join(f'{g.split("::")[-1]}: ' + ', '.join(f'{k} = {v}' for k, v in sorted(m.items())) for g, m in sorted(ren.items())))
+    _all_cache.clear(); _all_cache[key] = f2
+    return f2
